@@ -571,7 +571,16 @@ func genC13Conc(seed uint64, tier string) *Plan {
 	}
 	nw := len(writers)
 	for len(p.Keys) < nw {
-		p.Keys = append(p.Keys, GenKeys(r, 1, false)...)
+		k := GenKeys(r, 1, false)[0]
+		dup := false
+		for _, o := range p.Keys {
+			if string(o.Digest) == string(k.Digest) {
+				dup = true
+			}
+		}
+		if !dup {
+			p.Keys = append(p.Keys, k)
+		}
 	}
 	for ci := range writers {
 		for i := range writers[ci] {
